@@ -74,7 +74,8 @@ struct StreamState {
     /// supply: strictly increasing
     last_pos: Option<usize>,
     /// supply: position of the last event inside the current session
-    last_pos_in_session: Option<usize>,
+    sup_set: Option<std::collections::BTreeSet<usize>>,
+    sup_in_session: bool,
     skipped_value: bool,
 }
 
@@ -113,6 +114,21 @@ pub fn check(case: &Case, obs: &Obs) -> Verdict {
             }
         }
         let alive_at_cp = r.dropped_at.is_none() && !r.reason_at_checkpoint;
+        // Known defect attribution: a map event with a non-UTF-8 key that reaches `Uplinks::push` while
+        // the remote's writer is idle makes `push` return early with the writer taken out and dropped.
+        let poisoned = obs.lanes.iter().any(|l| {
+            l.emissions
+                .iter()
+                .any(|e| e.kind == EmKind::InvalidKey && e.flushed.is_some() && (e.target.is_none() || e.target == Some(r.id)))
+        });
+        // all consequences share one signature
+        let psig = |base: &str| -> String {
+            if poisoned {
+                "remote-abandoned-after-invalid-map-key".to_string()
+            } else {
+                base.to_string()
+            }
+        };
 
         // ------------------------------------------------------------------ known lanes
         for lane in &obs.lanes {
@@ -137,21 +153,34 @@ pub fn check(case: &Case, obs: &Obs) -> Verdict {
                 explicit_openers: 0,
                 synced_frames: 0,
                 last_pos: None,
-                last_pos_in_session: None,
+                sup_set: None,
+                sup_in_session: false,
                 skipped_value: false,
             };
             let mut open_at_cp = false;
+            let mut refusals = 0u64;
+            let all_reqs: Vec<u64> = r.sent.iter().filter(|(l, q, _, _)| l == name && !matches!(q, Req::Command(_))).map(|s| s.2).collect();
             let mut seen = 0usize;
             let mut idx_in_all = 0usize;
             for f in r.frames.iter() {
+                if idx_in_all == r.frames_at_checkpoint {
+                    open_at_cp = st.open;
+                }
                 idx_in_all += 1;
                 if f.lane != name {
-                    if idx_in_all == r.frames_at_checkpoint {
-                        open_at_cp = st.open;
-                    }
                     continue;
                 }
                 seen += 1;
+                // after a lane has closed its channels the read task (lane forgotten) and the write task
+                // (links kept) disagree about it: known finding, own signature
+                let lane_closed = lane.closed_at.map(|c| c < f.seq).unwrap_or(false);
+                let csig = |base: &str| -> String {
+                    if lane_closed {
+                        "session-grammar-after-lane-closed-its-channels".to_string()
+                    } else {
+                        base.to_string()
+                    }
+                };
                 let ctx = || format!("remote {} lane {} ({}) frame #{} {:?}", ri, name, kn, seen, f);
                 match &f.kind {
                     FrameKind::Linked => {
@@ -169,7 +198,7 @@ pub fn check(case: &Case, obs: &Obs) -> Verdict {
                         } else {
                             st.open = true;
                             st.sessions += 1;
-                            st.last_pos_in_session = None;
+                            st.sup_in_session = false;
                             if before(&targeted, f.seq) == 0 {
                                 st.explicit_openers += 1;
                             } else {
@@ -188,15 +217,27 @@ pub fn check(case: &Case, obs: &Obs) -> Verdict {
                             );
                         }
                     }
-                    FrameKind::Unlinked(_) => {
-                        if !st.open {
-                            v.fail("unlinked-outside-session", format!("{}: unlinked although no link is open (a second unlinked, or one without linked)", ctx()));
+                    FrameKind::Unlinked(body) => {
+                        // Once a lane has closed its channels the read task forgets it (first failed
+                        // write) and answers further requests with lane-not-found, like for a lane that
+                        // never existed.
+                        let refusal = body.as_deref() == Some(LANE_NOT_FOUND) && lane.closed_at.map(|c| c < f.seq).unwrap_or(false);
+                        if refusal {
+                            refusals += 1;
+                            if refusals > before(&all_reqs, f.seq) {
+                                v.fail("closed-lane:more-refusals-than-requests", format!("{}: {} lane-not-found answers but only {} requests", ctx(), refusals, before(&all_reqs, f.seq)));
+                            }
+                        } else if !st.open {
+                            v.fail(
+                                csig("unlinked-outside-session"),
+                                format!("{}: unlinked although no link is open (a second unlinked, or one without linked)", ctx()),
+                            );
                         }
                         st.open = false;
                     }
                     FrameKind::Synced => {
                         if !st.open {
-                            v.fail("synced-outside-session", format!("{}: synced while no link is open", ctx()));
+                            v.fail(csig("synced-outside-session"), format!("{}: synced while no link is open", ctx()));
                         }
                         st.synced_frames += 1;
                         if st.synced_frames > before(&sync_reqs, f.seq) {
@@ -215,7 +256,7 @@ pub fn check(case: &Case, obs: &Obs) -> Verdict {
                     FrameKind::Event(body) => {
                         events_total += 1;
                         if !st.open {
-                            v.fail("event-outside-session", format!("{}: event while no link is open", ctx()));
+                            v.fail(csig("event-outside-session"), format!("{}: event while no link is open", ctx()));
                         }
                         // positions in the remote's stream with exactly this body, produced before the frame was read
                         let cands: Vec<usize> = stream
@@ -255,38 +296,42 @@ pub fn check(case: &Case, obs: &Obs) -> Verdict {
                                 }
                             }
                             LKind::Supply => {
-                                let pos = match st.last_pos {
-                                    Some(prev) => cands.iter().copied().find(|p| *p > prev),
-                                    None => Some(cands[0]),
+                                // several emissions may carry the same body (empty bodies): keep every
+                                // position the last delivered event can have
+                                let first_in_session = !st.sup_in_session;
+                                let feasible: Vec<usize> = match &st.sup_set {
+                                    None => cands.clone(),
+                                    Some(set) if first_in_session => cands.iter().copied().filter(|c| set.iter().any(|s| c > s)).collect(),
+                                    Some(set) => cands.iter().copied().filter(|c| *c > 0 && set.contains(&(c - 1))).collect(),
                                 };
-                                match pos {
-                                    None => v.fail(
-                                        "supply:duplicate-or-reordered",
-                                        format!("{}: body {:?} was already delivered or precedes the previous event in emission order", ctx(), String::from_utf8_lossy(body)),
-                                    ),
-                                    Some(p) => {
-                                        if let Some(prev) = st.last_pos_in_session {
-                                            if p != prev + 1 {
-                                                v.fail(
-                                                    "supply:gap-inside-session",
-                                                    format!("{}: inside one link session the supply events must be consecutive emissions; got stream position {} after {}", ctx(), p, prev),
-                                                );
-                                            }
-                                        }
-                                        st.last_pos = Some(p);
-                                        st.last_pos_in_session = Some(p);
+                                if feasible.is_empty() {
+                                    let later = match &st.sup_set {
+                                        Some(set) => cands.iter().any(|c| set.iter().any(|s| c > s)),
+                                        None => true,
+                                    };
+                                    if later {
+                                        v.fail(
+                                            "supply:gap-inside-session",
+                                            format!("{}: inside one link session the supply events must be consecutive emissions; last delivered position(s) {:?}, this body is at {:?}", ctx(), st.sup_set, cands),
+                                        );
+                                    } else {
+                                        v.fail(
+                                            "supply:duplicate-or-reordered",
+                                            format!("{}: body {:?} was already delivered or precedes the previous event in emission order (last position(s) {:?}, this body at {:?})", ctx(), String::from_utf8_lossy(body), st.sup_set, cands),
+                                        );
                                     }
+                                    st.sup_set = Some(cands.iter().copied().collect());
+                                } else {
+                                    st.sup_set = Some(feasible.into_iter().collect());
                                 }
+                                st.sup_in_session = true;
                             }
                         }
                     }
                 }
-                if idx_in_all == r.frames_at_checkpoint {
-                    open_at_cp = st.open;
-                }
             }
-            if r.frames_at_checkpoint == 0 {
-                open_at_cp = false;
+            if r.frames_at_checkpoint >= r.frames.len() {
+                open_at_cp = st.open;
             }
             sessions_total += st.sessions;
             coalesced_value |= st.skipped_value;
@@ -317,19 +362,22 @@ pub fn check(case: &Case, obs: &Obs) -> Verdict {
                 }
                 if open_at_cp {
                     v.fail(
-                        "open-link-after-lane-failure",
+                        psig("open-link-after-lane-failure"),
                         format!("remote {} lane {}: the lane failed (invalid tag) but at quiescence the remote's link is still open (no unlinked received); frames {:?}", ri, name, r.frames.iter().filter(|f| f.lane == name).map(|f| &f.kind).collect::<Vec<_>>()),
                     );
                 }
             }
             // ---- agent stop closes every open link of a remote that is still reading
-            if obs.done_at_end && r.dropped_at.is_none() {
+            // (a remote the runtime pruned or lost before the stop is no longer served: it had no links
+            // left in the registry, whatever frames it had not read yet are gone with its channel)
+            let served_to_the_end = matches!(r.reason.as_deref(), Some("Ok(AgentStoppedExternally)") | Some("Ok(AgentTimedOut)"));
+            if obs.done_at_end && r.dropped_at.is_none() && served_to_the_end {
                 if st.sessions > 0 {
                     any_stop_closed = true;
                 }
                 if st.open {
                     v.fail(
-                        "open-link-after-agent-stop",
+                        psig("open-link-after-agent-stop"),
                         format!("remote {} lane {}: the agent has stopped but the remote never received unlinked for its open link; frames {:?}", ri, name, r.frames.iter().filter(|f| f.lane == name).map(|f| &f.kind).collect::<Vec<_>>()),
                     );
                 }
@@ -368,7 +416,7 @@ pub fn check(case: &Case, obs: &Obs) -> Verdict {
                 let got = frames.iter().filter(|(i, _)| *i < r.frames_at_checkpoint).count();
                 if got < must {
                     v.fail(
-                        "ghost:missing-lane-not-found",
+                        psig("ghost:missing-lane-not-found"),
                         format!("remote {}: {} link/sync requests for the non-existent lane {} were delivered but only {} lane-not-found frames arrived by quiescence", ri, must, g, got),
                     );
                 }
